@@ -37,7 +37,7 @@ type framePool struct {
 	startFrame mm.Frame
 
 	// endFrame tracks the last frame in the pool. The total number of
-	// frames is given by: (endFrame - startFrame) - 1
+	// frames is given by: (endFrame - startFrame) + 1
 	endFrame mm.Frame
 
 	// freeCount tracks the available pages in this pool. The allocator
@@ -95,14 +95,21 @@ func (alloc *BitmapAllocator) setupPoolBitmaps() *kernel.Error {
 			return true
 		}
 
-		alloc.poolsHdr.Len++
-		alloc.poolsHdr.Cap++
-
 		// Reported addresses may not be page-aligned; round up to get
 		// the start frame and round down to get the end frame
 		regionStartFrame := mm.Frame(((uintptr(region.PhysAddress) + pageSizeMinus1) & ^pageSizeMinus1) >> mm.PageShift)
-		regionEndFrame := mm.Frame((uintptr(region.PhysAddress+region.Length) & ^pageSizeMinus1)>>mm.PageShift) - 1
-		pageCount := uint32(regionEndFrame - regionStartFrame)
+		regionEndFrame := mm.Frame((uintptr(region.PhysAddress+region.Length) & ^pageSizeMinus1) >> mm.PageShift)
+
+		// Ignore regions that do not contain at least one whole page
+		if regionEndFrame <= regionStartFrame {
+			return true
+		}
+		regionEndFrame--
+
+		alloc.poolsHdr.Len++
+		alloc.poolsHdr.Cap++
+
+		pageCount := uint32(regionEndFrame - regionStartFrame + 1)
 		alloc.totalPages += pageCount
 
 		// To represent the free page bitmap we need pageCount bits. Since our
@@ -144,8 +151,12 @@ func (alloc *BitmapAllocator) setupPoolBitmaps() *kernel.Error {
 		}
 
 		regionStartFrame := mm.Frame(((uintptr(region.PhysAddress) + pageSizeMinus1) & ^pageSizeMinus1) >> mm.PageShift)
-		regionEndFrame := mm.Frame((uintptr(region.PhysAddress+region.Length) & ^pageSizeMinus1)>>mm.PageShift) - 1
-		bitmapBytes := ((uintptr(regionEndFrame-regionStartFrame) + 63) &^ 63) >> 3
+		regionEndFrame := mm.Frame((uintptr(region.PhysAddress+region.Length) & ^pageSizeMinus1) >> mm.PageShift)
+		if regionEndFrame <= regionStartFrame {
+			return true
+		}
+		regionEndFrame--
+		bitmapBytes := ((uintptr(regionEndFrame-regionStartFrame+1) + 63) &^ 63) >> 3
 
 		alloc.pools[poolIndex].startFrame = regionStartFrame
 		alloc.pools[poolIndex].endFrame = regionEndFrame
